@@ -1,7 +1,7 @@
 CONSTANTS MinVars = 1 MaxVars = 2 MaxLen = 2
   Seps = {"/", "-", "."} Letters = {"a", "b"} ValueSeps = {"-", ".", "/"}
   Tails = {"plain", "multi", "single"} Leads = {TRUE, FALSE} WithCommon = TRUE WithWild = TRUE
-  Perturbs = {"del", "app"} ValueMode = "all" Part = "paths" VRes = {} NaiveMax = 6 Mutant = "none"
+  Perturbs = {"del", "app"} ValueMode = "all" Part = "paths" VRes = {} NaiveMax = 5 Mutant = "none"
 SPECIFICATION Spec
 INVARIANT TypeOK
 INVARIANT Inv_PatternWF
